@@ -337,7 +337,33 @@ def _words_of(case, keys):
     if 'idx' in case:
         wl = keys.words
         return [wl[i % len(wl)] for i in case['idx']], None
-    ok, w = call(keys.mnemonic_new)
+    if 'stream' in case:
+        # the generator's randomness is supplied by the case: os.urandom is replaced, for the duration of the call, by a
+        # SHA-256 counter stream in which every `edge`-th request returns all-zero / all-one bytes, so that the first and the
+        # last word of the list (index 0 and 2047) are certain to be drawn - reproducible from the case alone
+        import os as _os
+        state = {'n': 0}
+        seed = bytes.fromhex(case['stream'])
+        edge = case.get('edge', 5)
+
+        def fake(n):
+            state['n'] += 1
+            if state['n'] % edge == 0:
+                return (b'\x00' if (state['n'] // edge) % 2 else b'\xff') * n
+            out = b''
+            c = 0
+            while len(out) < n:
+                out += hashlib.sha256(seed + state['n'].to_bytes(8, 'big') + bytes([c])).digest()
+                c += 1
+            return out[:n]
+        real = _os.urandom
+        _os.urandom = fake
+        try:
+            ok, w = call(keys.mnemonic_new)
+        finally:
+            _os.urandom = real
+    else:
+        ok, w = call(keys.mnemonic_new)
     if not ok:
         return None, Fail(f'mnemonic_new/raises/{exc_sig(w)}', repr(w))
     if not isinstance(w, (list, tuple)) or not all(isinstance(x, str) for x in w):
@@ -391,6 +417,8 @@ def check_derive(case):
 def enum_mnemonic_valid(tier):
     for i in range(20 if tier == 'quick' else 500):
         yield {'i': i}
+    for i in range(12 if tier == 'quick' else 200):          # reproducible draws that are certain to contain word 0 / word 2047
+        yield {'stream': hashlib.sha256(b'c20/stream/%d' % i).hexdigest()[:16], 'edge': 3 + i % 7}
 
 
 def enum_derive(tier):
@@ -404,7 +432,7 @@ def enum_derive(tier):
 
 
 def classify_mnemonic(case):
-    yield 'source=' + ('mnemonic_new()' if 'i' in case else 'fixed-word-indices' if 'idx' in case else 'given-words')
+    yield 'source=' + ('mnemonic_new()' if 'i' in case else 'mnemonic_new()-with-supplied-random-stream' if 'stream' in case else 'fixed-word-indices' if 'idx' in case else 'given-words')
 
 
 SUBCHECKS = [
